@@ -1,10 +1,15 @@
-import Tickit.Model.LifeTop
+import Tickit.Model.LifeOut
 import Tickit.Gen.Life
 import Tickit.Driver.Common
+import Tickit.Driver.Sgr
 /-
   Engine `life` (C08).  Operation vocabulary: see harness/life.c.  One observation per operation:
       [H<w>k | H<w>m<type>@<line>,<col>]* <result> | W … | P … | S … | B … | T …        (`end`: … leak=0|1)
   or `CRASH exit=1` (sanitizer abort) / `CRASH signal=6` (abort()) for the rest of the history.
+
+  The output operations (tbuf, tprint, tgoto, tflush, tcaps, tsetpen, tchpen: `Model/LifeOut.lean`) answer
+      ok out=<hex of each chunk handed to the output function, comma separated | -> [pen=<cached pen>] | W …
+  with the pen written as in engine `sgr` (`Driver/Sgr.lean`: `parsePen`, `showPen`, reused).
 
   The model runs with the configuration extracted from the source tree (`Gen.Life`): it mirrors the tree it is
   compared with, before or after the repairs.
@@ -29,7 +34,7 @@ def cfg : TCfg :=
     setInputFdClearsTermkey := Gen.Life.setInputFdClearsTermkey }
 
 structure DSt where
-  top : Top := {}
+  otop : OTop := {}
   crashed : Option String := none      -- the model's prediction: the process is dead
   implDead : Bool := false             -- the implementation has printed CRASH in this history
   mock : Bool := false
@@ -128,6 +133,8 @@ def parseOp (ts : List String) : Option Op :=
 
 def parseTAct (s : String) : Option TAct :=
   if s = "t" then some .tunref else if s = "T" then some .tref
+  else if s = "l" then some .later
+  else if s.startsWith "a" then ((s.drop 1).toString.toInt?).map TAct.timerAt
   else match parseAct s with
     | some .unbindSelf => none
     | some a => some (.win a)
@@ -165,6 +172,7 @@ def parseXOp (ts : List String) : Option XOp :=
   | ["iunref"] => some .iunref
   | "ilater" :: acts => do some (.ilater (← acts.mapM parseTAct))
   | "itimer" :: ms :: acts => do some (.itimer (← int? ms) (← acts.mapM parseTAct))
+  | "itimerat" :: ms :: acts => do some (.itimerat (← int? ms) (← acts.mapM parseTAct))
   | ["icancel", k] => do some (.icancel (← nat? k))
   | "itick" :: toks => do some (.itick (← toks.mapM parseTok))
   | ["mresize", l, c] => do some (.mresize (← int? l) (← int? c))
@@ -176,6 +184,21 @@ def parseXOp (ts : List String) : Option XOp :=
   | ["winch"] => some .winch
   | ["tsetin"] => some .tsetin
   | _ => (parseOp ts).map .base
+
+/-- The operations of the output layer (`Model/LifeOut.lean`); a pen is written as in engine `sgr`
+    (`fg=200#0a0b0c,bg=-1,b=1,u=2,…` or `-`). -/
+def parseYOp (ts : List String) : Option YOp :=
+  match ts with
+  | ["tbuf", n] => do some (.tbuf (← nat? n))
+  | ["tprint", h] => do some (.tprint (← hexBytes? h))
+  | ["tgoto", l, c] => do some (.tgoto (← int? l) (← int? c))
+  | ["tflush"] => some .tflush
+  | ["tcaps", r, c, how] => do
+    let via ← if how = "ctl" then some true else if how = "reply" then some false else none
+    some (.tcaps ((← int? r) ≠ 0) ((← int? c) ≠ 0) via)
+  | ["tsetpen", p] => do some (.tsetpen true (← SgrEngine.parsePen p))
+  | ["tchpen", p] => do some (.tsetpen false (← SgrEngine.parsePen p))
+  | _ => (parseXOp ts).map .x
 
 /-- The liveness columns of an implementation observation: (windows alive?, pens, strings, buffers, term). -/
 structure ImplDump where
@@ -263,24 +286,26 @@ def dumpTop (top : Top) : String :=
   (if top.xterms.isEmpty then "" else " | X " ++ String.join (top.xterms.toList.map (fun x => if x.freed then "0" else "1")))
 
 def step (d : DSt) (ts : List String) (impl : String) : DSt × String × String :=
-  match parseXOp ts with
+  match parseYOp ts with
   | none => (d, "bad-op", "")
-  | some xop =>
-    let op := xop.specOp
-    let d : DSt := if xop.isNew then ({ top := {}, crashed := none, implDead := false, mock := false } : DSt) else d
+  | some yop =>
+    let op := yop.specOp
+    let d : DSt := if yop.isNew then ({ otop := {}, crashed := none, implDead := false, mock := false } : DSt) else d
     let implDeadNow := impl.startsWith "CRASH"
     match d.crashed with
     | some c =>
-      let sv := specCheck d d.top.st (instRefs d.top) (xRefs d.top) op impl
+      let sv := specCheck d d.otop.top.st (instRefs d.otop.top) (xRefs d.otop.top) op impl
       ({ d with implDead := d.implDead || implDeadNow }, c, sv)
     | none =>
-      let top0 := d.top
-      match Life.xstep cfg top0 xop with
-      | .ok (top, res) =>
+      let o0 := d.otop
+      let top0 := o0.top
+      match Life.ystep cfg o0 yop with
+      | .ok (o1, res) =>
+        let top := o1.top
         match top.fail with
         | some c =>
           -- the process has died in the SIGWINCH machinery (freed observer, NULL link, endless walk)
-          ({ d with top := top0, crashed := some c, implDead := d.implDead || implDeadNow }, c, specCheck d top0.st (instRefs top0) (xRefs top0) op impl)
+          ({ d with otop := o0, crashed := some c, implDead := d.implDead || implDeadNow }, c, specCheck d top0.st (instRefs top0) (xRefs top0) op impl)
         | none =>
         let st := top.st
         let logs := String.join (st.log.map (· ++ " "))
@@ -292,14 +317,18 @@ def step (d : DSt) (ts : List String) (impl : String) : DSt × String × String 
         let tail := match op with
           | .«end» => s!" leak={if anythingLeft st || instLeft || top.xterms.any (fun x => !x.freed) then 1 else 0}"
           | _ => ""
+        -- tickit_term_setpen / chpen: the pen the terminal has cached afterwards
+        let res := match yop with
+          | .tsetpen .. => if res.startsWith "ok" then res ++ " pen=" ++ SgrEngine.showPen o1.o.cache else res
+          | _ => res
         let m := logs ++ res ++ dumpTop top ++ tail
         let sv := specCheck d st (instRefs top) (xRefs top) op impl
-        ({ d with top := top, implDead := d.implDead || implDeadNow }, m, sv)
+        ({ d with otop := { o1 with top := top }, implDead := d.implDead || implDeadNow }, m, sv)
       | .ub k what =>
         let c := crashText k
         let sv := specCheck d top0.st (instRefs top0) (xRefs top0) op impl
         let _ := what
-        ({ d with top := top0, crashed := some c, implDead := d.implDead || implDeadNow }, c, sv)
+        ({ d with otop := o0, crashed := some c, implDead := d.implDead || implDeadNow }, c, sv)
       | .fuel =>
         ({ d with crashed := some "MODEL-OUT-OF-FUEL", implDead := d.implDead || implDeadNow }, "MODEL-OUT-OF-FUEL", specCheck d top0.st (instRefs top0) (xRefs top0) op impl)
 
